@@ -216,7 +216,9 @@ func (root *Root) regField(obj *Object, fd *FieldDef, goField string, args ...st
 	if meta.Kind() == reflect.Struct {
 		if field, ok := meta.FieldByNameFunc(func(name string) bool {
 			return strings.EqualFold(name, goField)
-		}); ok {
+		}); ok && len(field.PkgPath) == 0 {
+			// An exported member only, the value of an unexported one can
+			// not be read by reflection. Go on and look for a method.
 			fd.goField = field.Name
 			if 0 < len(args) {
 				err = fmt.Errorf("%w: field %s on %s does not have argument", ErrMeta, goField, meta)
